@@ -24,7 +24,7 @@ def Store.put (s : Store) (k : String) (r : Rec) : Store := s.erase k ++ [(k, r)
 
 def expired (r : Rec) (now : Nat) : Bool := match r.exp with | some e => e < now | none => false
 
-/-- glob subset matcher: `*` any sequence, `?` any one char, everything else literal -/
+/-- glob subset matcher: `*` any sequence, `?` any one char, `\\x` the character x, everything else literal -/
 def globMatch : List Char → List Char → Bool
   | [], [] => true
   | [], _ :: _ => false
@@ -32,6 +32,8 @@ def globMatch : List Char → List Char → Bool
   | '*' :: ps, c :: cs => globMatch ps (c :: cs) || globMatch ('*' :: ps) cs
   | '?' :: _, [] => false
   | '?' :: ps, _ :: cs => globMatch ps cs
+  | '\\' :: _ :: _, [] => false
+  | '\\' :: p :: ps, c :: cs => p == c && globMatch ps cs      -- `\x` matches the character x literally
   | _ :: _, [] => false
   | p :: ps, c :: cs => p == c && globMatch ps cs
 termination_by p s => (p.length + s.length, p.length)
